@@ -103,13 +103,13 @@ def _load_disjoint_csr(
     Load a csr matrix from a not necessarily contiguous
     set of row indexes.
     """
-    row_index_list = np.array(row_index_list)
-    sorted_dex = np.argsort(row_index_list)
-    inverse_argsort = {sorted_dex[ii]: ii for ii in range(len(sorted_dex))}
+    # position of each requested row among the distinct, sorted
+    # rows that are actually loaded (requested rows may repeat)
+    (unq_row_list,
+     inverse_argsort) = np.unique(
+        np.array(row_index_list), return_inverse=True)
 
-    row_index_list = row_index_list[sorted_dex]
-
-    row_chunk_list = merge_index_list(row_index_list)
+    row_chunk_list = merge_index_list(unq_row_list)
     data_list = []
     indices_list = []
     indptr_list = []
@@ -137,9 +137,14 @@ def _load_disjoint_csr(
                          indptr_list=indptr_list)
 
     # undo sorting
-    final_data = np.zeros(merged_data.shape, dtype=merged_data.dtype)
-    final_indices = np.zeros(merged_indices.shape, dtype=merged_indices.dtype)
-    final_indptr = np.zeros(merged_indptr.shape, dtype=merged_indptr.dtype)
+    n_final = 0
+    for new_position in inverse_argsort:
+        n_final += (merged_indptr[new_position+1]
+                    - merged_indptr[new_position])
+    final_data = np.zeros(n_final, dtype=merged_data.dtype)
+    final_indices = np.zeros(n_final, dtype=merged_indices.dtype)
+    final_indptr = np.zeros(len(inverse_argsort)+1,
+                            dtype=merged_indptr.dtype)
 
     data_ct = 0
     for ii in range(len(row_index_list)):
